@@ -145,8 +145,11 @@ CLAIMED = {
  'C16': dict(
    text='Deductive proof: PhaseShift.transform equals the spec shift on periodic columns and is the identity elsewhere (loop invariant, frame, '
         'input array untouched) over the reals; range closure [0,1) proved in IEEE binary64 (z3 FP theory, numpy % semantics) for both directions; '
-        'inverse law and range proved as lemmas over the spec function (reals).',
-   note=TRUST + 'Inverse law only over reals (binary64 form not proved). `periodic` distinct valid indices is a precondition. PhaseShift.compute gap property: see evidence notes.',
+        'inverse law and range proved as lemmas over the spec function (reals). PhaseShift.compute (reals): for every periodic parameter i the centre is computed from column periodic[i] '
+        'of the construction points, its sorted values and their cyclic gaps, and after the forward shift every construction coordinate keeps a distance of half the largest cyclic gap '
+        'from 0 and 1, i.e. the largest empty gap lies across the boundary (loop invariant with a ghost gap witness per parameter, step lemmas).',
+   note=TRUST + 'Inverse law and gap placement only over reals (binary64 form not proved: holds up to rounding, checked at run time). `periodic` distinct valid indices is a precondition; '
+        'at least one construction point. np.sort/np.diff/np.argmax/np.amax are library models. Replay leg: adversarial search on the real class (non-prefix periodic sets, values adjacent to 0, 0.5, 1).',
    tech='contract-based deductive verification incl. binary64 bit-precise obligations (z3 FP via ground instantiation)', ref='7 C16'),
 }
 
